@@ -53,5 +53,5 @@ theorem C04_state_perm {α : Type} (obs : Tx → α) (rules : List Rule) (l : Li
 
 /-- non-vacuity: a flag-like observation (the engine mode) commutes trivially under `nop` actions -/
 example (rules : List Rule) (t : Tx) (a b : MD) :
-    (onMatch rules ⟨[], none, [], false, [.nop]⟩ (onMatch rules ⟨[], none, [], false, [.nop]⟩ t a) b).engine =
-    (onMatch rules ⟨[], none, [], false, [.nop]⟩ (onMatch rules ⟨[], none, [], false, [.nop]⟩ t b) a).engine := rfl
+    (onMatch rules ⟨[], none, [], false, [.nop], 0⟩ (onMatch rules ⟨[], none, [], false, [.nop], 0⟩ t a) b).engine =
+    (onMatch rules ⟨[], none, [], false, [.nop], 0⟩ (onMatch rules ⟨[], none, [], false, [.nop], 0⟩ t b) a).engine := rfl
